@@ -201,8 +201,8 @@ def replay(prop, path):
     with open(path) as f:
         doc = json.load(f)
     ctx = Ctx(prop, mutsan=getattr(mod, "MUTSAN", "off"))
-    if hasattr(mod, "setup"):
-        mod.setup(ctx)
+    if hasattr(mod, "pvm_setup"):
+        mod.pvm_setup(ctx)
     run_one(mod, ctx, doc["case"])
     unlisted, listed = findings_mod.classify(ctx.violations)
     for v in ctx.violations:
